@@ -253,8 +253,19 @@ def rule_g7(ctx):
               "open leaf (e.g. one labelled with a recursive needle) can still produce occurrences", "all open leaves considered")
 
 
+def rule_g8(ctx):
+    """approximate_isla_to_smt_formula abstracts every untranslatable sub-formula by a placeholder predicate recorded in ONE mapping shared by the whole recursion:
+    different sub-formulas must get different placeholders, or `P_1 or not P_1` is reported valid for two unrelated operands (TRUE on an open tree whose completions are FALSE)."""
+    from ..generic import check_shared_accumulators
+
+    n = check_shared_accumulators(ctx, "G8-placeholder-mapping-shared", ["src/isla/evaluator.py"])
+    if n < 1:
+        raise Unrecognised("C06.G8", "src/isla/evaluator.py:approximate_isla_to_smt_formula", "the shared placeholder mapping (accumulator parameter with in-body default) was not found")
+
+
 def run(ctx) -> str:
     ctx.guarded("G7", lambda: rule_g7(ctx))
+    ctx.guarded("G8", lambda: rule_g8(ctx))
     ctx.guarded("G1", lambda: rule_g1(ctx))
     ctx.guarded("G2", lambda: rule_g2(ctx))
     ctx.guarded("G3", lambda: rule_g3(ctx))
